@@ -31,10 +31,10 @@ import common
 
 RULE = ("table pairs from random.Random(seed+k): categories equal index / nested / offset (same rate) / "
         "different rates / partially overlapping spans / irregular power-of-two gaps, 2..12 rows, stamps "
-        "multiples of 1/8, values dyadic; column sets are random ordered subsets of roll pitch heading lat "
+        "multiples of 1/16 on a time axis starting at 0, 1e5, 1.2e6 or 1.7e9 s (GPS/UNIX seconds), values dyadic; column sets are random ordered subsets of roll pitch heading lat "
         "lon alt VN VE VD x y z incl. partial rph / partial lla and different orders in the two tables; "
-        "headings across the +-180 wrap; resampling requests unsorted with duplicates, end points and "
-        "times outside the span; Series pairs; plus the corpus witnesses of the recorded findings.  A case "
+        "headings across the +-180 wrap; resampling requests unsorted with duplicates, end points, one ulp "
+        "inside the ends and times outside the span at 1 ulp / 1e-6 s / 1 s / 1e3 s on both sides; Series pairs; plus the corpus witnesses of the recorded findings.  A case "
         "is distinct by (kind, category, columns, stamps, values)")
 
 NAMES = ['roll', 'pitch', 'heading', 'lat', 'lon', 'alt', 'VN', 'VE', 'VD', 'x', 'y', 'z']
@@ -217,16 +217,29 @@ def common_index(ta, tb):
     return [t for t in f if s[0] <= t <= s[-1]]
 
 
-def gen_pair(rng, cat=None):
+# origins of the time axis: from zero, and absolute stamps (day / GPS-week seconds, UNIX seconds); all stamps
+# stay multiples of 1/16 s, exactly representable below 2**31
+ORIGINS = [0.0, 1.0e5, 1.2e6, 1.7e9]
+# distances of out-of-span requests from the span ends; None = one ulp
+OUT_DIST = [None, 1e-6, 1.0, 1e3]
+
+
+def shift(ts, origin):
+    return [origin + t for t in ts]
+
+
+def gen_pair(rng, cat=None, origin=None):
     cat = cat or rng.choice(CATEGORIES)
+    origin = rng.choice(ORIGINS) if origin is None else origin
     for _ in range(50):
         ta, tb = gen_time_pair(rng, cat)
+        ta, tb = shift(ta, origin), shift(tb, origin)
         if rng.random() < 0.5:
             ta, tb = tb, ta
         if len(ta) >= 2 and len(tb) >= 2 and common_index(ta, tb):
             break
     else:
-        ta = tb = [0.0, 1.0, 2.0]
+        ta = tb = shift([0.0, 1.0, 2.0], origin)
     ca, cb = gen_cols_pair(rng)
     ctx = gen_ctx(rng)
     a = gen_table(rng, ca, ta, ctx)
@@ -234,20 +247,35 @@ def gen_pair(rng, cat=None):
     return cat, a, b
 
 
-def gen_requests(rng, tab):
+def outside(t, k, side):
+    """a request outside the span [t[0], t[-1]] at distance OUT_DIST[k % 4] (one ulp, 1e-6 s, 1 s, 1e3 s)"""
+    d = OUT_DIST[k % len(OUT_DIST)]
+    if side < 0:
+        x = float(np.nextafter(t[0], -np.inf)) if d is None else t[0] - d
+        return x if x < t[0] else float(np.nextafter(t[0], -np.inf))
+    x = float(np.nextafter(t[-1], np.inf)) if d is None else t[-1] + d
+    return x if x > t[-1] else float(np.nextafter(t[-1], np.inf))
+
+
+def gen_requests(rng, tab, k=None):
+    """requested times for resample_state: knots, midpoints, span ends, one ulp inside the span ends, and
+    times OUTSIDE the span at 1 ulp .. 1e3 s (at least one on each side, the distance cycling with k)"""
     t = tab['t']
-    out = []
+    k = rng.randrange(16) if k is None else k
+    out = [outside(t, k, -1), outside(t, k // 4 + k, +1)]
     for _ in range(rng.randint(1, 10)):
-        m = rng.randrange(6)
+        m = rng.randrange(8)
         if m == 0:
             out.append(rng.choice(t))
         elif m == 1:
             i = rng.randrange(len(t) - 1)
             out.append((t[i] + t[i + 1]) / 2)
         elif m == 2:
-            out.append(rng.choice([t[0] - 0.125, t[-1] + 0.125, t[0] - 5.0, t[-1] + 7.0]))
+            out.append(outside(t, rng.randrange(4), rng.choice([-1, 1])))
         elif m == 3:
             out.append(rng.choice([t[0], t[-1]]))
+        elif m == 4:
+            out.append(rng.choice([float(np.nextafter(t[0], np.inf)), float(np.nextafter(t[-1], -np.inf))]))
         else:
             i = rng.randrange(len(t) - 1)
             out.append(t[i] + (t[i + 1] - t[i]) * rng.choice([0.25, 0.5, 0.75, 0.125]))
@@ -488,12 +516,13 @@ def case_key(case):
 def gen_corr_cases(rng, n_diff, n_res, n_ser):
     cases = []
     for i in range(n_diff):
-        cat, a, b = gen_pair(rng, CATEGORIES[i % len(CATEGORIES)])
+        cat, a, b = gen_pair(rng, CATEGORIES[i % len(CATEGORIES)], ORIGINS[(i // len(CATEGORIES)) % len(ORIGINS)])
         cases.append(dict(kind='diff', cat=cat, a=a, b=b))
     for i in range(n_res):
         cols = gen_cols(rng)
-        tab = gen_table(rng, cols, gen_times(rng, rng.randint(2, 10), rng.choice(GAPS + [None])), gen_ctx(rng))
-        cases.append(dict(kind='resample', cat='resample', a=tab, ts=gen_requests(rng, tab)))
+        ts = shift(gen_times(rng, rng.randint(2, 10), rng.choice(GAPS + [None])), ORIGINS[i % len(ORIGINS)])
+        tab = gen_table(rng, cols, ts, gen_ctx(rng))
+        cases.append(dict(kind='resample', cat='resample', a=tab, ts=gen_requests(rng, tab, i // len(ORIGINS))))
     for i in range(n_ser):
         cols = gen_cols(rng)
         ctx = gen_ctx(rng)
@@ -992,7 +1021,7 @@ def statement_tests(r, rng, n, count=None):
         guarded('range', st_range, a, b)
         guarded('antisym', st_antisym, a, b)
     for i in range(n):
-        cat, a, b = gen_pair(rng, CATEGORIES[i % len(CATEGORIES)])
+        cat, a, b = gen_pair(rng, CATEGORIES[i % len(CATEGORIES)], ORIGINS[(i // 2) % len(ORIGINS)])
         if i % 3 == 2:
             a, b = rough(rng, a), rough(rng, b)
         r.case(('st', case_key(dict(a=a, b=b))))
@@ -1006,7 +1035,7 @@ def statement_tests(r, rng, n, count=None):
                 keep = sorted(set(keep) | {0, len(a['t']) - 1})
             if len(keep) < len(a['t']) and len(keep) >= 2:
                 guarded('subsample', st_subsample, a, keep)
-        guarded('resample', st_resample, a, gen_requests(rng, a))
+        guarded('resample', st_resample, a, gen_requests(rng, a, i // 8))
         if i % 4 == 0:
             ctx = gen_ctx(rng)
             cols = LLA + rng.sample(['VN', 'roll', 'x'], rng.randint(0, 2))
